@@ -269,6 +269,8 @@ func recheckOutsideRegion(l *Loader, r *UnitResult, o *Obl, kf *KnownFinding, ou
 	o2.Status = ""
 	discharge([]*Obl{&o2}, outDir, secs, 1)
 	if o2.Status != "discharged" {
+		// continue with the restricted obligation: its model and replay lie outside the known region
+		o.Assume, o.Status, o.Model, o.Output, o.Solver = o2.Assume, o2.Status, o2.Model, o2.Output, o2.Solver
 		return false, "obligation still fails outside the region (" + o2.Status + ")"
 	}
 	// the finding must still exist inside the region (otherwise the entry is stale; that is fine, but report it)
@@ -291,41 +293,12 @@ func replayFor(l *Loader, spec *PropSpec, r *UnitResult, o *Obl, outDir string) 
 	}
 	// a failed contract clause of a function: look for a concrete property-level counterexample by
 	// running the property's lemma harnesses with callee bodies inlined instead of their contracts
-	for _, u := range spec.Units {
-		p, k := splitUnit(u)
-		lf := l.findFunc(p, k)
-		if lf == nil {
-			continue
-		}
-		c := l.contractFor(lf)
-		if c == nil || !c.Lemma {
-			continue
-		}
-		inlineAll = true
-		lr := verifyUnit(l, p, k)
-		inlineAll = false
-		if lr.Err != "" {
-			continue
-		}
-		var cand []*Obl
-		for _, lo := range lr.Obls {
-			if !lo.ExpectSat && !lo.Trivial {
-				cand = append(cand, lo)
-			}
-		}
-		discharge(cand, outDir, 10, 6)
-		for _, lo := range cand {
-			if lo.Status == "failed" && (lo.Kind == "lemma" || lo.Kind == "nopanic") {
-				rr := replayCall(l, lf, true, lo, outDir)
-				if rr.Confirmed {
-					rr.Note = "property-level counterexample found by running lemma " + k + " on the real callee bodies"
-					return rr
-				}
-				if os.Getenv("GOVC_DEBUG") != "" {
-					fmt.Fprintf(os.Stderr, "replay of %s not confirmed: %s\n%s\n", lo.Name, rr.Note, rr.Output)
-				}
-			}
-		}
+	if !lemmaSearchDone {
+		lemmaSearchDone = true
+		lemmaSearchHit = lemmaSearch(l, spec, outDir)
+	}
+	if lemmaSearchHit != nil {
+		return *lemmaSearchHit
 	}
 	return ReplayResult{Note: "no lemma harness of this property exposes the failed clause with a concrete input"}
 }
@@ -543,6 +516,74 @@ func knownFor(obl string) *KnownFinding {
 	for i := range knownCache {
 		if knownCache[i].Status == "known" && knownCache[i].Obligation == obl {
 			return &knownCache[i]
+		}
+	}
+	return nil
+}
+
+var lemmaSearchDone bool
+var lemmaSearchHit *ReplayResult
+
+// lemmaSearch runs every lemma harness of the property over the real callee bodies (bounded,
+// quantifier-free) and replays the first counterexample that lies outside all known-finding regions.
+func lemmaSearch(l *Loader, spec *PropSpec, outDir string) *ReplayResult {
+	for _, u := range spec.Units {
+		p, k := splitUnit(u)
+		lf := l.findFunc(p, k)
+		if lf == nil {
+			continue
+		}
+		c := l.contractFor(lf)
+		if c == nil || !c.Lemma {
+			continue
+		}
+		inlineAll = true
+		lr := verifyUnit(l, p, k)
+		inlineAll = false
+		if lr.Err != "" {
+			continue
+		}
+		var cand []*Obl
+		for _, lo := range lr.Obls {
+			if lo.ExpectSat || lo.Trivial || !(lo.Kind == "lemma" || lo.Kind == "nopanic") {
+				continue
+			}
+			if kf := knownFor(lo.Name); kf != nil {
+				if kf.Region == "" {
+					continue
+				}
+				e, err := ParseSpecExpr(kf.Region)
+				if err != nil {
+					continue
+				}
+				var region *Term
+				func() {
+					defer func() { recover() }()
+					env := &SpecEnv{ex: lr.Exec, st: newState(), old: newState(), vars: map[string]Val{}, fn: lr.Fn}
+					for _, in := range lo.Inputs {
+						env.vars[in.Name] = in.V
+					}
+					region = env.evalBool(Clause{Expr: e, Src: kf.Region, Line: "known_findings.json"})
+				}()
+				if region == nil {
+					continue
+				}
+				lo.Assume = append(append([]*Term{}, lo.Assume...), Not(region))
+			}
+			cand = append(cand, lo)
+		}
+		discharge(cand, outDir, 10, 6)
+		for _, lo := range cand {
+			if lo.Status == "failed" {
+				rr := replayCall(l, lf, true, lo, outDir)
+				if rr.Confirmed {
+					rr.Note = "property-level counterexample found by running lemma " + k + " on the real callee bodies"
+					return &rr
+				}
+				if os.Getenv("GOVC_DEBUG") != "" {
+					fmt.Fprintf(os.Stderr, "replay of %s not confirmed: %s\n%s\n", lo.Name, rr.Note, rr.Output)
+				}
+			}
 		}
 	}
 	return nil
